@@ -217,6 +217,17 @@ Definition canon_inventory (inv : inventory) : string :=
                              | None => " | ?"
                              end) nodes))%string.
 
+(** When some node fails, the code reports the first failing node in the (hash map) order in
+    which results arrive; the observation lists every failing node so that any of them is
+    accepted (C13: "the error names a node that fails"). *)
+Definition is_ok {A} (r : res A) : bool := match r with Ok _ => true | _ => false end.
+
+Definition canon_inv_result (rs : list (string * res nodeinfo)) : string :=
+  match filter (fun '(_, r) => negb (is_ok r)) rs with
+  | [] => canon_res canon_inventory (inventory_of rs empty_inventory)
+  | errs => ("errs" ++ concat_str (map (fun '(n, r) => (" || " ++ hx n ++ " " ++ canon_res (fun _ => "") r)%string) errs))%string
+  end.
+
 Definition run_inv (ts : list string) : string :=
   match ts with
   | ig :: co :: dots :: ts1 =>
@@ -252,12 +263,16 @@ Definition run_inv (ts : list string) : string :=
                                   else "badcase"
                               | [op] =>
                                   if String.eqb op "all" then
-                                    canon_res canon_inventory
-                                      ('(nt, ct) <- tables ;;
-                                       inventory_of
-                                         (map (fun ne => (ne_name ne,
-                                                          render_node inc_fuel run_fuel cfg "<NODES>" nt ct (ne_name ne)))
-                                              nt) empty_inventory)
+                                    match tables with
+                                    | Ok (nt, ct) =>
+                                        canon_inv_result
+                                          (map (fun ne => (ne_name ne,
+                                                           render_node inc_fuel run_fuel cfg "<NODES>" nt ct (ne_name ne)))
+                                               nt)
+                                    | Err e => canon_res (fun _ : unit => "") (Err e)
+                                    | Panic s => canon_res (fun _ : unit => "") (Panic s)
+                                    | OutOfFuel => "fuel"
+                                    end
                                   else if String.eqb op "names" then
                                     canon_res (fun '(ns, cs) =>
                                                  ("N" ++ canon_index (sort_index (map (fun e => (en_name e, [join "/" (en_path e)])) ns)) ++
@@ -306,5 +321,38 @@ Definition run_line2 (line : string) : string :=
       if String.eqb mode "inv" then (id ++ tab ++ run_inv ts)%string
       else if String.eqb mode "abs" then (id ++ tab ++ run_abs ts)%string
       else run_line line
+  | _ => "badline"
+  end.
+
+(** * textof mode (oracle for C05): text form, per Spec/TextOf.v, of a rendered value given as
+    data (strings are literals). *)
+From RV Require Import Spec.TextOf.
+
+Fixpoint literalize (v : value) {struct v} : value :=
+  match v with
+  | VStr s => VLit s
+  | VSeq l => VSeq (map literalize l)
+  | VMap es => VMap (map (fun '(k, x, c, o) => (k, literalize x, c, o)) es)
+  | _ => v
+  end.
+
+Definition run_textof (ts : list string) : string :=
+  match p_yaml (S (List.length ts)) ts with
+  | Some (y, []) =>
+      match value_of_yaml y with
+      | Ok v => match text_of (literalize v) with
+                | Some s => sp "ok" (hx s)
+                | None => "notclosed"
+                end
+      | _ => "badcase"
+      end
+  | _ => "badcase"
+  end.
+
+Definition run_line3 (line : string) : string :=
+  match words line with
+  | id :: mode :: ts =>
+      if String.eqb mode "textof" then (id ++ tab ++ run_textof ts)%string
+      else run_line2 line
   | _ => "badline"
   end.
